@@ -44,7 +44,7 @@ open HL HL.Ast
     switch (parse errors carry no code and never pass through the filter). -/
 inductive Code where
   | undeclaredAccount | undeclaredCommodity | unbalanced | multipleInferred | other
-deriving Repr, DecidableEq, Inhabited, BEq
+deriving Repr, DecidableEq, Inhabited
 
 def Code.name : Code → String
   | .undeclaredAccount => "UNDECLARED_ACCOUNT"
@@ -208,29 +208,58 @@ def fileAt (files : List Journal) (i : Nat) : Journal := (files[i]?).getD emptyJ
 def declsOf (files : List Journal) (idx : List Nat) (f : Journal → List Bytes) : List Bytes :=
   idx.flatMap fun i => f (fileAt files i)
 
-/-- `Server.analyzeResolved` (with repo_patches/fix-c18-include-declarations.diff applied),
-    projected to the UNDECLARED_* diagnostics it publishes for the current document.
+/-- `workspace.GetDeclaredAccounts` / `GetDeclaredCommodities` as seen from `Server.analyze`:
+    nothing when the server has no workspace or the workspace has no resolved journal (the
+    getters return nil), else the declarations found in `AllDirectives()` of the resolved journal. -/
+def wsDecls (files : List Journal) (wsTree : Option (List Nat)) (f : Journal → List Bytes) : List Bytes :=
+  match wsTree with
+  | some l => declsOf files l f
+  | none => []
+
+/-- `external.Accounts` as `Server.analyzeResolved` builds it (with
+    repo_patches/fix-c18-include-declarations.diff applied):
       external := workspace caches (when a workspace exists and has a resolved journal)
       external  = MergeDeclarations(DeclarationsFromResolved(resolved), external)
-      result   := analyzer.AnalyzeWithExternalDeclarations(journal, external)
+    `DeclarationsFromResolved` walks the primary journal (the document itself) and every file the
+    loader resolved below it. -/
+def externalAccounts (files : List Journal) (cur : Nat) (curTree : List Nat)
+    (wsTree : Option (List Nat)) : List Bytes :=
+  (collectDeclaredAccounts (fileAt files cur) ++ declsOf files curTree collectDeclaredAccounts) ++
+    wsDecls files wsTree collectDeclaredAccounts
+
+/-- `external.Commodities`, likewise. -/
+def externalCommodities (files : List Journal) (cur : Nat) (curTree : List Nat)
+    (wsTree : Option (List Nat)) : List Bytes :=
+  (collectDeclaredCommodities (fileAt files cur) ++ declsOf files curTree collectDeclaredCommodities) ++
+    wsDecls files wsTree collectDeclaredCommodities
+
+/-- The declared sets `analyzeInternal` ends up with for the current document: its own
+    declarations plus the external ones. -/
+def serverDeclaredAccounts (files : List Journal) (cur : Nat) (curTree : List Nat)
+    (wsTree : Option (List Nat)) : List Bytes :=
+  collectDeclaredAccounts (fileAt files cur) ++ externalAccounts files cur curTree wsTree
+
+def serverDeclaredCommodities (files : List Journal) (cur : Nat) (curTree : List Nat)
+    (wsTree : Option (List Nat)) : List Bytes :=
+  collectDeclaredCommodities (fileAt files cur) ++ externalCommodities files cur curTree wsTree
+
+/-- `Server.analyzeResolved`, projected to the UNDECLARED_* diagnostics it publishes for the
+    current document:
+      result := analyzer.AnalyzeWithExternalDeclarations(journal, external)
       keep the diagnostics that pass shouldIncludeDiagnostic, convert to protocol form. -/
 def serverAnalyze (lower : Bytes → Bytes) (files : List Journal) (cur : Nat) (curTree : List Nat)
     (wsTree : Option (List Nat)) (s : Settings) : List PubDiag :=
-  let journal := fileAt files cur
-  let wsAcc := match wsTree with | some l => declsOf files l collectDeclaredAccounts | none => []
-  let wsCom := match wsTree with | some l => declsOf files l collectDeclaredCommodities | none => []
-  let incAcc := collectDeclaredAccounts journal ++ declsOf files curTree collectDeclaredAccounts
-  let incCom := collectDeclaredCommodities journal ++ declsOf files curTree collectDeclaredCommodities
-  let diags := analyzeInternal lower journal (incAcc ++ wsAcc) (incCom ++ wsCom)
+  let diags := analyzeInternal lower (fileAt files cur) (externalAccounts files cur curTree wsTree)
+    (externalCommodities files cur curTree wsTree)
   (diags.filter fun d => shouldIncludeDiagnostic d.code s).map toPub
 
 /-- `Server.analyze` as it was before the fix: only the workspace caches are added to the
-    document's own declarations.  Kept for `Props/C18.unfixed_counterexample`. -/
+    document's own declarations.  Kept for `Props/C18.before_fix_include_declarations_ignored`. -/
 def serverAnalyzeUnfixed (lower : Bytes → Bytes) (files : List Journal) (cur : Nat)
     (wsTree : Option (List Nat)) (s : Settings) : List PubDiag :=
   let journal := fileAt files cur
-  let wsAcc := match wsTree with | some l => declsOf files l collectDeclaredAccounts | none => []
-  let wsCom := match wsTree with | some l => declsOf files l collectDeclaredCommodities | none => []
+  let wsAcc := wsDecls files wsTree collectDeclaredAccounts
+  let wsCom := wsDecls files wsTree collectDeclaredCommodities
   let diags := analyzeInternal lower journal wsAcc wsCom
   (diags.filter fun d => shouldIncludeDiagnostic d.code s).map toPub
 
